@@ -14,7 +14,8 @@ statement of C05 does not settle; they are repeated in the evidence `assumptions
  * loop-carried producers sit in a body stage <= the consumer's body stage; a replicated producer is only
    carried into the replicated head of the same chain (same replica count, replica r <- replica r);
  * replication inside the loop is limited to the classic  replicate -> [follower] -> aggregate chain;
- * `:loopref` / `:loopoutput` are only used by consumers outside the loop;
+ * `:loopref` / `:loopoutput` are used by consumers outside the loop and (round 5) by ONE extra looped component,
+   a pure sink (nobody reads it), which aggregates non-replicated sibling looped components of the same loop;
  * at most two DoWhile documents per package (the second one is a fixed two-component loop).
 """
 from __future__ import annotations
@@ -30,6 +31,7 @@ OUTER_SRC = ["srca", "srcb", "srcc"]
 TWIN_WORK = "secondjob"
 CONS_NAMES = ["report", "collect", "tail", "view", "last1x", "agg-all", "obs"]
 PATH_METHODS = ["ref", "copy", "link"]
+SINK_NAMES = ["hist", "accum", "sum2all"]      # the in-loop reader of aggregate references (round 5)
 
 
 def _substring_free(names: List[str]) -> bool:
@@ -211,9 +213,50 @@ def draw_shape(r, idx: int, K: int, allow_repl_carried: bool = True, allow_extra
         choices = [t for t in range(0, max_stage + 1) if t != cond_stage] or [max_stage + 1]
         twin = {"stage": r.choice(choices), "cond": cond_name, "work": TWIN_WORK, "name": "lp2"}
         max_stage = max(max_stage, twin["stage"])
-    return {"twin": twin, "combo": combo, "idx": idx, "S": S, "K": K, "body": body, "bindings": bindings, "cond": cond,
-            "consumers": consumers, "max_stage": max_stage, "dw_name": r.choice(["loop-it", "dw", "imp-one"]),
-            "repl_via_var": repl_via_var, "repl_carried": repl_carried}
+    shape = {"twin": twin, "combo": combo, "idx": idx, "S": S, "K": K, "body": body, "bindings": bindings, "cond": cond,
+             "consumers": consumers, "max_stage": max_stage, "dw_name": r.choice(["loop-it", "dw", "imp-one"]),
+             "repl_via_var": repl_via_var, "repl_carried": repl_carried}
+    if allow_extras:
+        # drawn LAST so that everything above stays what it was before this family existed (and C07's stream is untouched)
+        _add_inloop_aggregator(r, shape, bnames + cnames)
+    return shape
+
+
+def _add_inloop_aggregator(r, shape: Dict[str, Any], other_names: List[str]) -> None:
+    """round-5 family: a looped component INSIDE the loop reads sibling looped components of the same loop through
+    the aggregate methods (`add:loopoutput`, `stage0.add/res.txt:loopref`), possibly next to an ordinary
+    same-iteration reference to the same sibling.  The reader is a pure sink (no loop binding, no outside consumer,
+    not the condition) so that "all instances" can never close a cycle; targets are non-replicated."""
+    idx, body = shape["idx"], shape["body"]
+    if not (idx % 2 == 0 or r.random() < 0.3):
+        return
+    taken = [c["name"] for c in body] + other_names + OUTER_SRC + ["filler", TWIN_WORK, "lp2", "loop-it", "dw", "imp-one"]
+    free = [n for n in SINK_NAMES if all(n not in t and t not in n for t in taken)]
+    elig = [c for c in body if c.get("replicate") is None and c.get("follows") is None]
+    if not free or not elig:
+        return
+    main_t = r.choice(elig)
+    off = r.randint(main_t["off"], 1)
+    reach = [c for c in elig if c["off"] <= off]
+    methods = r.choice([["loopoutput"], ["loopref"], ["loopoutput", "loopref"], ["loopref", "loopoutput"]])
+    agg = []
+    for m in methods:
+        t = main_t if r.random() < 0.7 else r.choice(reach)
+        a = {"to": t["name"], "method": m, "file": r.choice([None, None, "res.txt"])}
+        if t["off"] == off and r.random() < 0.5:
+            a["spelling"] = "rel"
+        agg.append(a)
+    intra = []
+    if r.random() < 0.5:
+        p = main_t if r.random() < 0.5 else r.choice(reach)
+        it = {"to": p["name"], "method": r.choice(PATH_METHODS + ["output"]), "file": None}
+        if p["off"] == off and r.random() < 0.4:
+            it["spelling"] = "rel"
+        intra.append(it)
+    body.append({"name": r.choice(free), "off": off, "replicate": None, "aggregate": False, "intra": intra,
+                 "binds": [], "agg": agg})
+    shape["inagg"] = True
+    shape["max_stage"] = max(shape["max_stage"], shape["S"] + off)
 
 
 # ----------------------------------------------------------------------------- documents
@@ -269,6 +312,8 @@ def render(shape: Dict[str, Any]) -> Tuple[str, str]:
         for bd in comp["binds"]:
             refs.append(ref_str(None, bd["binding"], bd["file"], shape["bindings"][bd["binding"]]["type"]))
         for it in comp["intra"]:
+            refs.append(spelled_intra(by_name, it))
+        for it in comp.get("agg", []):
             refs.append(spelled_intra(by_name, it))
         arg_refs = refs + ([refs[comp["dup"]]] if comp.get("dup") is not None else [])
         args = " ".join(["-v"] + arg_refs + ["--tag=%(loopIteration)s"])
@@ -380,6 +425,7 @@ class Truth:
         c = self.by_name[name]
         spelled = [ref_str(None, bd["binding"], bd["file"], self.shape["bindings"][bd["binding"]]["type"]) for bd in c["binds"]]
         spelled += [spelled_intra(self.by_name, x) for x in c["intra"]]
+        spelled += [spelled_intra(self.by_name, x) for x in c.get("agg", [])]
         expect = [ref_str(*x) for x in self.instance_inputs(name, it, "")]
         plan = list(zip(spelled, expect))
         if c.get("dup") is not None:
@@ -394,9 +440,10 @@ class Truth:
                     out.append(self.instance_id(c["name"], it, sfx))
         return out
 
-    def instance_inputs(self, name: str, it: int, sfx: str) -> List[Tuple[int, str, Optional[str], str]]:
+    def instance_inputs(self, name: str, it: int, sfx: str, with_agg: bool = True) -> List[Tuple[int, str, Optional[str], str]]:
         """Expected references (stage, producer node name, file, method) of instance `it` of `name`
-        (replica `sfx`), at the replicated level."""
+        (replica `sfx`), at the replicated level.  An aggregate reference from inside the loop keeps naming the
+        looped component as such (= all its instances) in every instance; `with_agg=False` leaves those out."""
         c = self.by_name[name]
         out = []
         for bd in c["binds"]:
@@ -420,6 +467,9 @@ class Truth:
                     out.append((self.stage(t), "%d#%s%s" % (it, t, sfx), itr["file"], itr["method"]))
             else:
                 out.append((self.stage(t), "%d#%s" % (it, t), itr["file"], itr["method"]))
+        if with_agg:
+            for a in c.get("agg", []):
+                out.append((self.stage(a["to"]), a["to"], a["file"], a["method"]))
         return out
 
     def condition(self, k: int) -> Tuple[int, str, Optional[str], str]:
